@@ -119,6 +119,10 @@ class Executor(ExprMixin, StmtMixin, Engine):
         for s1, out in super().exec_stmt(node, st):
             if out.kind == 'normal' and not s1.dead:
                 for gname, expr in upd:
+                    if gname == '__assume__':
+                        # an assumed lemma (listed in the evidence as an assumption of this contract)
+                        s1.assume(self.spec(expr, s1, {}, self.fn_old))
+                        continue
                     v = self.spec_val(expr, s1, {}, self.fn_old)
                     s1.env[gname] = self.coerce(v, c.ghost_init[gname][0])
             yield s1, out
@@ -320,6 +324,7 @@ class Executor(ExprMixin, StmtMixin, Engine):
         # facts: empty list -> ''; singleton -> the element; length lower bound
         st.assume(z3.Implies(list_len(lst) == 0, r.e == z3.StringVal('')))
         st.assume(z3.Implies(list_len(lst) == 1, r.e == z3.Select(list_arr(lst), 0)))
+        st.assume(z3.Implies(list_len(lst) >= 1, z3.Length(r.e) >= z3.Length(z3.Select(list_arr(lst), 0))))
         return r
 
     def format_value(self, st, tmpl, pos, kw, node):
@@ -479,6 +484,8 @@ class Executor(ExprMixin, StmtMixin, Engine):
                 if isinstance(v.t, TOpt):
                     self.prove(s1, z3.Not(opt_is_none(v)), 'noraise', line, 'len-None')
                     v = opt_val(v)
+                if isinstance(v.t, TRef) and v.t.cls in self.m.listlike:
+                    v = self.read_field(s1, v, self.m.listlike[v.t.cls])
                 yield s1, self.length(v)
             elif name in ('min', 'max') and len(pos) == 2:
                 x, y = pos
@@ -670,10 +677,10 @@ class Executor(ExprMixin, StmtMixin, Engine):
         extra['result'] = res
         for pn, nv in rebinds.items():
             extra['new_' + pn] = nv
-        for e in c.ensures:
-            if isinstance(e, tuple):
-                continue    # property-level clauses are checked on the callee, never assumed by callers
-            st.assume(self.spec(e, st, extra, old))
+        for j, e in enumerate(c.ensures):
+            if '%s:post:%d' % (c.key.split(':')[1], j) in self.m.unassumed:
+                continue    # recorded as refuted on the callee (known finding): callers must not rely on it
+            st.assume(self.spec(clause(e)[0], st, extra, old))
         # write back rebinding of list parameters
         states = [st]
         for pn, nv in rebinds.items():
@@ -709,10 +716,10 @@ class Executor(ExprMixin, StmtMixin, Engine):
         yield st, exc
 
     def apply_exc_post(self, st, c, args, old):
-        for e in c.ensures_exc:
-            if isinstance(e, tuple):
+        for j, e in enumerate(c.ensures_exc):
+            if '%s:post-exc:%d' % (c.key.split(':')[1], j) in self.m.unassumed:
                 continue
-            st.assume(self.spec(e, st, args, old))
+            st.assume(self.spec(clause(e)[0], st, args, old))
 
     def havoc_modifies(self, st, c, args, node):
         rebinds = {}
